@@ -498,7 +498,7 @@ Theorem call_transparent : forall (f : callee_t) idx args,
   call_cop f idx args = call_inproc f idx args.
 Proof.
   intros f idx args Hi T Hn Hfit Ho. unfold call_cop, call_cop_cap, call_inproc.
-  fold (build_request idx args). rewrite request_fits by assumption.
+  change (build_request_cap REQ_BUF_SIZE idx args) with (build_request idx args). rewrite request_fits by assumption.
   set (P := le_bytes 4 idx ++ le_bytes 2 (len args) ++ flat_map ser args).
   assert (HP : len P <= COP_MAX_PAYLOAD).
   { unfold P. rewrite !len_app, !len_le_bytes, flat_len_args. change (N.of_nat 4) with 4. change (N.of_nat 2) with 2. lia. }
@@ -547,6 +547,22 @@ Proof.
 Qed.
 
 (* a transferable result larger than a message may be: reported as an FFI error (no longer a silent void) *)
+Lemma reply_too_big_general : forall r idx, transferable r -> COP_MAX_PAYLOAD < ser_size r -> idx < 2 ^ 32 ->
+  call_cop (fun _ _ => ORes r) idx [] = CErr COP_REPLY_TOO_LARGE_MSG.
+Proof.
+  intros r idx T Hbig Hi.
+  unfold call_cop, call_cop_cap. change (build_request_cap REQ_BUF_SIZE idx []) with (build_request idx []).
+  rewrite request_fits; [|apply Forall_nil|unfold len, REQ_MAX_ARGS; cbn [length]; lia|unfold COP_MAX_PAYLOAD; cbn; lia].
+  cbn [flat_map]. rewrite app_nil_r.
+  rewrite frame_recv; [|reflexivity|rewrite len_app, !len_le_bytes; nc].
+  rewrite N.eqb_refl. unfold cop_side.
+  pose proof (parse_request_built idx [] Hi (Forall_nil _)) as PR. cbn [flat_map] in PR. rewrite app_nil_r in PR.
+  rewrite PR by nc.
+  rewrite build_reply_too_big; [|apply transferable_wf; exact T|rewrite reply_buf_is_max; exact Hbig].
+  rewrite frame_recv; [|reflexivity|nc]. unfold parse_reply. tagc.
+  reflexivity.
+Qed.
+
 Theorem reply_above_max_refuted :
   exists r, transferable r /\
     forall idx, idx < 2 ^ 32 ->
@@ -554,17 +570,9 @@ Theorem reply_above_max_refuted :
 Proof.
   exists (big_str COP_MAX_PAYLOAD).
   assert (T : transferable (big_str COP_MAX_PAYLOAD)) by (apply big_str_transferable; reflexivity).
-  split; [exact T|]. intros idx Hi. split; [|reflexivity].
-  unfold call_cop, call_cop_cap. fold (build_request idx []).
-  rewrite request_fits; [|apply Forall_nil|unfold len, REQ_MAX_ARGS; cbn [length]; lia|unfold COP_MAX_PAYLOAD; cbn; lia].
-  cbn [flat_map]. rewrite app_nil_r.
-  rewrite frame_recv; [|reflexivity|rewrite len_app, !len_le_bytes; nc].
-  rewrite N.eqb_refl. unfold cop_side.
-  pose proof (parse_request_built idx [] Hi (Forall_nil _)) as PR. cbn [flat_map] in PR. rewrite app_nil_r in PR.
-  rewrite PR by nc.
-  rewrite build_reply_too_big; [|apply transferable_wf; exact T|rewrite big_str_size, reply_buf_is_max; reflexivity].
-  rewrite frame_recv; [|reflexivity|nc]. unfold parse_reply. tagc.
-  f_equal. vm_compute. reflexivity.
+  split; [exact T|]. intros idx Hi. split.
+  - apply reply_too_big_general; [exact T| |exact Hi]. rewrite big_str_size. lia.
+  - unfold call_inproc. reflexivity.
 Qed.
 
 (* a well-formed value nested deeper than the decoder accepts is refused: 257 levels *)
